@@ -242,6 +242,64 @@ async def run_many_downloads(flavor, p, cnt, v, sigs):
     await guarded(flavor, api.close_pool)
 
 
+async def run_held_download(flavor, p, cnt, v, sigs):
+    """Two responses share the client's connection-level credit: the first one (almost the whole 16 MiB + 65,535) is
+    opened and left unread, so its DATA is buffered without being acknowledged while the second one is read; the second
+    one drives the connection window to zero and can only finish if the credit for *its own* frames is returned at once.
+    (The slack left by the held response is > 1024 bytes: below that the h2 package's window manager withholds the update
+    for the few bytes consumed - progress then depends on the held response being read, which is the caller's choice.)"""
+    net = simnet.Net()
+    net.log_events = False
+    first = 65535 + 2 ** 24 - p["slack"]
+    second = p["size"]
+
+    def responder(req, origin):
+        n = first if req.target.endswith(b"first") else second
+        return Resp(200, b"OK", [(b"X-Echo", req.token or b"-")], (b"f" if n == first else b"s") * n)
+
+    origin = endpoints.Origin(net, "o.test", 443, tls=True, alpn=["h2"], responder=responder,
+                              h2_script={"settings": {SC_MCS: 100}, "data_chunk": 16384})
+    pool = mk_pool(flavor, net, http2=True, max_connections=1)
+    api = API(flavor, pool, net)
+    got = {"second": None, "first": None}
+
+    async def scen():
+        resp, cm = await api.open("GET", "https://o.test/first", headers=[("X-Token", "h0")])
+        try:
+            r2 = await api.request("GET", "https://o.test/second", headers=[("X-Token", "h1")])
+            got["second"] = (len(r2.content), r2.content.count(b"s"))
+            body = await api.read(resp)
+            got["first"] = (len(body), body.count(b"f"))
+        finally:
+            await api.close(cm)
+        return True
+
+    out = await guarded(flavor, scen)
+    cnt["transfers"] += 2
+    cnt["oracle_progress"] += 1
+    cnt["downloads_beyond_credit"] += 1
+    cnt["held_downloads"] = cnt.get("held_downloads", 0) + 1
+    ctx = {"params": p, "flavor": flavor}
+    sigs.add(f"held|{p['slack']}|{second}|{flavor}")
+    srv = [c.h2 for c in origin.conns if c.h2 is not None]
+    win = srv[0].conn.outbound_flow_control_window if srv else None
+    for s_ in srv:
+        cnt["oracle_windows"] += s_.ledger.frames
+        for viol_ in s_.ledger.violations:
+            v("ledger:" + viol_["kind"], f"{viol_}", ctx)
+    if out.kind == "hang":
+        which = "second" if got["second"] is None else "first"
+        v("download-stalled:held-response", f"the {which} of two responses sharing the connection window never completed (the "
+          f"server's view of the client's connection window, after the stalled calls were torn down: {win})", ctx)
+    elif out.kind != "ok":
+        v(f"download-failed:held-response:{exc_name(out.exc) if out.kind == 'exc' else out.kind}", f"{out!r}", ctx)
+    elif got["second"] != (second, second) or got["first"] != (first, first):
+        v("download-bytes-differ:held-response", f"{got} for sizes first={first} second={second}", ctx)
+    elif len(net.transports) != 1:
+        v("held-responses-not-on-one-connection", f"{len(net.transports)} connections", ctx)
+    await guarded(flavor, api.close_pool)
+
+
 def run_case(case):
     flavor = case["flavor"]
     viol = []
@@ -259,6 +317,8 @@ def run_case(case):
                 await run_upload(flavor, p, cnt, v, sigs)
             elif p["dir"] == "many":
                 await run_many_downloads(flavor, p, cnt, v, sigs)
+            elif p["dir"] == "held":
+                await run_held_download(flavor, p, cnt, v, sigs)
             else:
                 await run_download(flavor, p, cnt, v, sigs)
             if not sample:
@@ -316,5 +376,8 @@ def plan(tier, seed):
     for i, (size, count) in enumerate([(16384, 1100), (1, 200), (16385, 600)] + ([(100, 3000), (16384, 2600)] if tier != "quick" else [])):
         for f in (flavors if tier != "quick" or size == 16384 else [flavors[i % 3]]):
             cases.append({"flavor": f, "params": [{"dir": "many", "size": size, "count": count}], "seed": seed + 200 + i})
-    cases.sort(key=lambda c: -max(p["size"] * p.get("count", 1) for p in c["params"]))
+    for i, (slack, size) in enumerate([(100_000, 1_000_000), (2048, 70_000), (16384 * 3 + 5, 300_000)] if tier != "quick" else [(100_000, 1_000_000)]):
+        for f in flavors:
+            cases.append({"flavor": f, "params": [{"dir": "held", "slack": slack, "size": size}], "seed": seed + 300 + i})
+    cases.sort(key=lambda c: -max((2 ** 24 if p["dir"] == "held" else p["size"] * p.get("count", 1)) for p in c["params"]))
     return cases
